@@ -9,6 +9,9 @@ ROOT = os.path.dirname(HERE)
 tier = sys.argv[1] if len(sys.argv) > 1 else "quick"
 out_path = os.path.join(ROOT, ".build", "kani_results.json")
 tgt = os.path.join(ROOT, ".build", "kani")
+os.makedirs(os.path.dirname(out_path), exist_ok=True)
+if os.path.exists(out_path):
+    os.remove(out_path)  # never let a failed run be judged by stale results
 env = dict(os.environ, CARGO_NET_OFFLINE="true")
 env.pop("RUSTFLAGS", None)
 env.pop("CARGO_TARGET_DIR", None)
